@@ -328,14 +328,25 @@ fn fold_order(case: &Value) {
         .unwrap();
     let goal_ctx = GoalContextBuilder::with_features(&[feature]).unwrap().build().unwrap();
     let logger: vrp_core::rosomaxa::utils::InfoLogger = Arc::new(|_| ());
+    let multi_jobs: Vec<usize> = case.get("multi_jobs").and_then(|v| v.as_array()).map(|a| a.iter().map(|x| x.as_u64().unwrap() as usize).collect()).unwrap_or_default();
     let jobs: Vec<Job> = (0..n_jobs)
         .map(|idx| {
-            let mut dimens = Dimensions::default();
-            dimens.set_job_id(format!("j{idx}"));
-            Job::Single(Arc::new(Single {
-                places: vec![Place { location: Some(1), duration: 0., times: vec![TimeSpan::Window(TimeWindow::max())] }],
-                dimens,
-            }))
+            let mk_single = || {
+                let mut dimens = Dimensions::default();
+                dimens.set_job_id(format!("j{idx}"));
+                Arc::new(Single {
+                    places: vec![Place { location: Some(1), duration: 0., times: vec![TimeSpan::Window(TimeWindow::max())] }],
+                    dimens,
+                })
+            };
+            if multi_jobs.contains(&idx) {
+                // a two-task job: the activity-level estimate applies to each task
+                let mut dimens = Dimensions::default();
+                dimens.set_job_id(format!("j{idx}"));
+                Job::Multi(Multi::new_shared(vec![mk_single(), mk_single()], dimens))
+            } else {
+                Job::Single(mk_single())
+            }
         })
         .collect();
     let jobs_index = vrp_core::models::problem::Jobs::new(&fleet, jobs.clone(), transport.as_ref(), &logger).unwrap();
